@@ -13,7 +13,8 @@
 (* neighbours in the sequence (None at the ends), and no node belongs to   *)
 (* two chains.  A refused call (IndexError / ValueError / KeyError /       *)
 (* TypeError / assertion) changes nothing; an iterable that raises in the  *)
-(* middle of extend() leaves the items delivered so far appended.  A node  *)
+(* middle of extend() leaves the items delivered so far appended (or       *)
+(* nothing: both outcomes are accepted).  A node                           *)
 (* taken out of a chain (remove_node, pop, node.remove) is detached: both  *)
 (* its links are None and no chain reaches it.  An iteration (iter_nodes,  *)
 (* iter / reversed of a list, node.iter_next / iter_previous) is a CURSOR  *)
@@ -141,7 +142,8 @@ ListShape(st, l) == LET s == st.lst[l] IN
      truth |-> IF s = <<>> THEN 0 ELSE 1]
 Links(st) == UNION {{<<s[i], IF i = 1 THEN 0 ELSE s[i - 1], IF i = Len(s) THEN 0 ELSE s[i + 1]>> : i \in 1..Len(s)}
                     : s \in AllChains(st)}
-Shape(st) == [lists |-> [l \in Lists(st) |-> ListShape(st, l)], links |-> Links(st)]
+Shape(st) == [lists |-> [l \in Lists(st) |-> ListShape(st, l)], links |-> Links(st),
+              sets  |-> [s \in DOMAIN st.os |-> [fwd |-> st.os[s], rev |-> Reverse(st.os[s]), len |-> Len(st.os[s])]]]
 
 ----------------------------------------------------------------------------
 \* ---- strings and items: [n, s, k]
